@@ -537,12 +537,15 @@ func VerifC09InfoCommands() {
 	which := vf.NondetIntRange("command", 0, 5)
 	var cmd *cobra.Command
 	var flags []string
+	rootText, checkRoot := "", false
 	switch which {
 	case 0:
 		cmd = infoCmdAttrDescribe
 		target := []string{"Major3", "Diminished5", "nosuch", ""}[vf.NondetIntRange("target", 0, 3)]
 		n := vf.NondetIntRange("root.len", 0, vf.Param("C09.flagLen", 2))
-		flags = []string{"--target", target, "--root", vf.NondetString("root", n)}
+		rootText = vf.NondetString("root", n)
+		checkRoot = true
+		flags = []string{"--target", target, "--root", rootText}
 		if vf.NondetIntRange("sharp", 0, 1) == 1 {
 			flags = append(flags, "--precedeSharp")
 		}
@@ -575,7 +578,42 @@ func VerifC09InfoCommands() {
 		vf.Reach("failed")
 	} else {
 		vf.Assert("a-successful-command-prints-its-result", printed != "")
+		if checkRoot {
+			// a root that is accepted is a note spelling — a letter A..G with an optional # or b
+			// (or the Unicode signs) and nothing else — not some text containing one
+			ok := len(rootText) >= 1 && rootText[0] >= 'A' && rootText[0] <= 'G'
+			rest := ""
+			if ok {
+				rest = rootText[1:]
+			}
+			vf.Assert("accepted-root-text-is-a-note-spelling", ok && (rest == "" || rest == "#" || rest == "b" || rest == "♯" || rest == "♭"))
+		}
 		vf.Reach("printed")
+	}
+	vf.Reach("end")
+}
+
+// VerifC11DescribeAccidental: `info chord describe` honours the Unicode accidental signs the
+// chord grammar accepts exactly like # and b: same output, or refused — never another root.
+func VerifC11DescribeAccidental() {
+	letter := []string{"C", "E", "G"}[vf.NondetIntRange("letter", 0, 2)]
+	pair := [][2]string{{"#", "♯"}, {"b", "♭"}}[vf.NondetIntRange("sign", 0, 1)]
+	symbol := []string{"", "m7", "_7"}[vf.NondetIntRange("symbol", 0, 2)]
+	run := func(sign string) (string, error) {
+		if err := infoCmdChordDescribe.ParseFlags([]string{"--output", "", "--target", letter + sign + symbol}); err != nil {
+			return "", err
+		}
+		return verifCapture("describe-acc.txt", func() error { return infoCmdChordDescribe.RunE(infoCmdChordDescribe, nil) })
+	}
+	ascii, aerr := run(pair[0])
+	uni, uerr := run(pair[1])
+	plain, perr := run("")
+	vf.Assert("ascii-spelling-is-described", aerr == nil && perr == nil && ascii != "" && ascii != plain)
+	if uerr == nil {
+		vf.Assert("unicode-accidental-is-honoured-in-describe", uni == ascii)
+	} else {
+		vf.Assert("nothing-printed-on-failure", uni == "")
+		vf.Reach("refused")
 	}
 	vf.Reach("end")
 }
